@@ -338,6 +338,14 @@ def _replay_text(inp):
         for trial in range(int(inp.get("trials", 6))):
             cfg = _sample_config(rng)
             want = _expected(cfg)
+            # text given as bytes is the text
+            for sec, k, b_, want_ in (("experiment", "sample", b"blood", "blood"), ("setup", "chip region", b"Channel", "channel"),
+                                      ("setup", "medium", np.bytes_(b"CellCarrier"), "CellCarrier"), ("user", "note", b"\xc3\xbc", "ü")):
+                ref = Configuration()
+                ref[sec][k] = b_
+                if k not in ref[sec] or ref[sec][k] != want_ or not isinstance(ref[sec][k], str):
+                    return {"failed": True, "detail": f"[{sec}] '{k}' = {b_!r} (bytes) is stored as {ref[sec].get(k)!r}, "
+                                                      f"expected the text {want_!r}"}
             # a number given as text is the number: the same as assigning the number itself
             for sec in cfg:
                 for k, orig in cfg[sec].items():
